@@ -171,3 +171,65 @@ func VH_C02_priority_seq() {
 		}
 	}
 }
+
+type vhBusyHandler struct {
+	mb               vivid.Mailbox
+	order            []int
+	blocked, release bool
+}
+
+func (h *vhBusyHandler) HandleEnvelop(e vivid.Envelop) {
+	id := e.Message().(int)
+	if id == 0 {
+		// the actor is busy with this message while the burst piles up behind it
+		h.blocked = true
+		for i := 0; i < 64 && !h.release; i++ {
+			vrtYieldOnce()
+		}
+		return
+	}
+	h.order = append(h.order, id)
+}
+
+// VH_C02_priority_busy: while the (single) consumer of the REAL UnboundedMailbox
+// is busy inside a handler, k system and u user envelopes arrive in an
+// arbitrary order; once the handler returns, every pending system message is
+// handled before any pending user message, FIFO within each kind.
+func VH_C02_priority_busy() {
+	h := &vhBusyHandler{}
+	mb := mailbox.NewUnboundedMailbox(int64(1+vrtChoose(3)), h)
+	h.mb = mb
+	mb.Enqueue(mailbox.NewEnvelop(false, nil, nil, 0))
+	for i := 0; i < 8 && !h.blocked; i++ {
+		vrtYieldOnce()
+	}
+	vrtAssert(h.blocked, "setup")
+	n := 2 + vrtChoose(vrtParam("maxmsgs", 4)-1)
+	var sys, usr []int
+	for i := 0; i < n; i++ {
+		if vrtBool() {
+			id := 1 + len(sys)
+			sys = append(sys, id)
+			mb.Enqueue(mailbox.NewEnvelop(true, nil, nil, id))
+		} else {
+			id := 100 + len(usr)
+			usr = append(usr, id)
+			mb.Enqueue(mailbox.NewEnvelop(false, nil, nil, id))
+		}
+	}
+	vrtAssert(len(h.order) == 0, "one-message-at-a-time")
+	h.release = true
+	for i := 0; i < 8; i++ {
+		vrtYield()
+	}
+	want := append(append([]int{}, sys...), usr...)
+	vrtAssert(len(h.order) == len(want), "every-message-handled-once")
+	for i := range want {
+		if i < len(h.order) {
+			vrtAssert(h.order[i] == want[i], "pending-system-messages-before-pending-user-messages")
+		}
+	}
+	if len(sys) >= 2 && len(usr) >= 1 {
+		vrtReach("two-system-one-user-pending")
+	}
+}
